@@ -85,7 +85,9 @@ class TdlChannelProfile:
 
         aux = (np.sum(self._tap_powers_linear * self._tap_delays**2) /
                np.sum(self._tap_powers_linear))
-        self._rms_delay_spread = math.sqrt(aux - self._mean_excess_delay**2)
+        # the variance of a profile whose taps share one delay can round below zero
+        self._rms_delay_spread = math.sqrt(
+            max(aux - self._mean_excess_delay**2, 0.0))
 
         # Sampling interval when the channel profile is discretized. You
         # can call the
